@@ -17,7 +17,7 @@ def main():
     ap.add_argument("--tier", default=os.environ.get("VERIF_TIER", "quick"), choices=["quick", "thorough"])
     ap.add_argument("--replay")
     a = ap.parse_args()
-    if a.prop in ("C08", "C09"):
+    if a.prop in ("C06", "C08", "C09"):
         from . import checks_sched, checks_token
         import json
 
